@@ -221,6 +221,19 @@ impl<'a> P<'a> {
                     _ => Err("bad #".into()),
                 }
             }
+            '|' => {
+                // |an identifier with anything in it|: kept verbatim, bars included
+                let start = self.i;
+                self.i += 1;
+                while self.i < self.s.len() && self.s[self.i] != '|' {
+                    self.i += 1;
+                }
+                if self.i >= self.s.len() {
+                    return Err("eof in |identifier|".into());
+                }
+                self.i += 1;
+                Ok(Sx::Sym(self.s[start..self.i].iter().collect()))
+            }
             _ => {
                 let start = self.i;
                 while self.i < self.s.len() && !is_delim(self.s[self.i]) {
